@@ -1,11 +1,11 @@
 package zv
 
 import (
-	"os"
 	"fmt"
 	"go/constant"
 	"go/token"
 	"go/types"
+	"os"
 	"sort"
 	"strconv"
 	"strings"
